@@ -425,6 +425,7 @@ def _r5_queue(ctx, rep) -> None:
     sqlshape.rule_lock_visibility(ctx, rep, "C01.R5")
     sqlshape.rule_queue_deleters(ctx, rep, "C01.R5")
     sqlshape.rule_ack_after_handle(ctx, rep, "C01.R5")
+    sqlshape.rule_timestamp_normalised(ctx, rep, "C01.R5")
     # every new queue row gets an identity of its own. queue_messages.message_id is UNIQUE; a handler may push the very message
     # object it is handling again (a polling task re-queues its RunTask). If the row id were taken from that object, a redelivery
     # after a crash (old re-push still queued) collides: IntegrityError, the healthy task is failed TERMINAL.
